@@ -590,6 +590,17 @@ class SpecCtx:
                 if not isinstance(fv, FuncV) or not fv.bound or not fv.bound.endswith("." + mname) or not fv.bindings:
                     return z3.BoolVal(False)
                 return to_bool(self.eq(fv.bindings[0], rv))
+            if n == "detached":     # detached(c): the context c descends from context.Background()/TODO(), not from any caller's context
+                cv = self.eval(args[0])
+                if not isinstance(cv, IfaceV):
+                    raise SpecError("detached(): not a context value")
+                return uf("ctx.detached", [Ref], z3.BoolSort())(cv.ref)
+            if n == "isfunc":       # isfunc(f, pkg.Name): f is exactly the package-level function pkg.Name (no closure, no bound method)
+                fv = self.eval(args[0])
+                want = self.flat(args[1])
+                if not isinstance(fv, FuncV) or not fv.fn or fv.bindings or fv.bound:
+                    return z3.BoolVal(False)
+                return z3.BoolVal(fv.fn == want or fv.fn.endswith("/" + want))
             if n == "held":
                 p = self.eval_addr(args[0])
                 return z3.BoolVal(self.eng.lock_key(st, p) in [h[0] for h in st.held])
@@ -749,6 +760,8 @@ class SpecCtx:
             s2.heap = dict(ev.snap)
             for k, v in self.st.heap.items():
                 s2.heap.setdefault(k, v)
+            if ev.held is not None:
+                s2.held = list(ev.held)     # held(x.lk) inside all(F, ...) / first / last: the locks held when the call was made
             self.st = s2
         try:
             return to_bool(self.eval(cond_ast))
